@@ -24,6 +24,8 @@ pub struct Server {
     /// requests the server sent to the client (workspace/applyEdit)
     pub server_requests: Vec<Request>,
     pub extra_responses: Vec<Response>,
+    /// panics seen on request worker threads (answered with an error or not)
+    pub worker_panics: Vec<PanicRecord>,
     pub timeout: Duration,
 }
 
@@ -70,8 +72,11 @@ impl Server {
         let mut configuration = Configuration::default();
         configuration.markdown.refs_extension = ext.to_string();
         let lsp_client = if client_name == "helix" { LspClient::Helix } else { LspClient::Unknown };
+        // the loop runs on the process's main thread in production (8 MB stack on Linux); request
+        // workers are spawned by the router itself with the default 2 MB
         let thread = std::thread::Builder::new()
             .name(LOOP_THREAD.to_string())
+            .stack_size(8 * 1024 * 1024)
             .spawn(move || {
                 let router = Router::new(
                     connection.sender,
@@ -94,6 +99,7 @@ impl Server {
             loop_panics: vec![],
             server_requests: vec![],
             extra_responses: vec![],
+            worker_panics: vec![],
             timeout: Duration::from_secs(30),
         }
     }
@@ -157,8 +163,9 @@ impl Server {
                         if rec.thread == LOOP_THREAD {
                             self.loop_panics.push(rec);
                         } else {
+                            self.worker_panics.push(rec.clone());
                             // give an already sent response a chance to be seen first
-                            if let Ok(Message::Response(r)) = self.client.receiver.recv_timeout(Duration::from_millis(20)) {
+                            if let Ok(Message::Response(r)) = self.client.receiver.recv_timeout(Duration::from_millis(200)) {
                                 if &r.id == id {
                                     return match (r.result, r.error) {
                                         (_, Some(e)) => Answer::Err(e.code, e.message),
@@ -197,6 +204,8 @@ impl Server {
         while let Ok(rec) = self.panic_rx.try_recv() {
             if rec.thread == LOOP_THREAD {
                 self.loop_panics.push(rec);
+            } else {
+                self.worker_panics.push(rec);
             }
         }
     }
